@@ -1566,7 +1566,9 @@ impl PatternFusion for SafeSoftmaxFusion {
         let x = Pattern::symbol("x");
         let y = Pattern::unary_op("Softmax", x).with_name("softmax");
 
-        let cond = Pattern::unary_op("IsNaN", y.clone());
+        // The value tested for NaNs must be the softmax output that is
+        // selected by `Where`. This is verified in `maybe_fuse`.
+        let cond = Pattern::unary_op("IsNaN", Pattern::symbol("y"));
         Pattern::operator("Where", [cond, Pattern::constant(0.), y])
     }
 
@@ -1579,6 +1581,17 @@ impl PatternFusion for SafeSoftmaxFusion {
         let softmax_op = g
             .get_operator::<Softmax>(softmax_id)
             .ok_or(FusionError::NoMatch)?;
+
+        let softmax_out = g
+            .get_node(softmax_id)
+            .and_then(|n| n.as_operator())
+            .and_then(|op| op.output_ids().first().copied().flatten());
+        if softmax_out.is_none() || softmax_out != pat_match.node_id("y") {
+            return Err(FusionError::CheckFailed(
+                "IsNaN input is not the softmax output",
+            ));
+        }
+
         Ok(Softmax {
             flush_nans_to_zero: true,
             ..*softmax_op
